@@ -393,6 +393,12 @@ func (srv *Srv) write(req *SrvReq) {
 		return
 	}
 
+	if (fid.Omode & 3) == OEXEC {
+		/* open for execution is not open for writing either */
+		req.RespondError(Ebaduse)
+		return
+	}
+
 	if tc.Count > req.Conn.Msize {
 		/* also keeps the addition below from wrapping around */
 		req.RespondError(Etoolarge)
